@@ -7,6 +7,11 @@ mod cfg;
 mod c20;
 mod c19;
 mod c18;
+mod c01r;
+mod rsrv;
+#[path = "../../zv/src/vals.rs"]
+mod vals;
+mod wire;
 
 use cfg::Cfg;
 
@@ -27,6 +32,12 @@ fn main() {
         "c20" => c20::run(&cfg),
         "c19" => c19::run(&cfg),
         "c18" => c18::run(&cfg),
+        "c01" => c01r::run(&cfg),
+        "c02" => wire::run("C02", &cfg),
+        "c03" => wire::run("C03", &cfg),
+        "c08" => rsrv::run_c08(&cfg),
+        "c09" => rsrv::run_c09(&cfg),
+        "c10" => rsrv::run_c10(&cfg),
         _ => {
             eprintln!("unknown monitor {name}");
             std::process::exit(2);
